@@ -351,7 +351,7 @@ func runC02(env *Env) {
 	// reused set objects, shared and changed element objects
 	emit("tcp 5 0 full S P T 300 A 1 300 1 5 13 0 65535 str - ; S P D 300 A 1 300 1 5 13 0 65535 str hex 616263 ; C 1 R P D 300 A 2 300 1 5 13 0 65535 str hex 6465 ; C 1 ; C 0 ;")
 	emit("udp 5 0 full S P T 300 A 1 300 2 5 13 0 65535 str - 6 2 0 2 u16 0 ; S P D 300 A 1 300 2 5 13 0 65535 str hex 616263646566 6 2 0 2 u16 4369 M 1 0 str hex 7879 M 1 1 u16 8738 AS 1 300 1 ; C 1 ; C 1 R P D 300 AS 2 300 1 ;")
-	emit("tcp 5 7 full S P T 300 A 1 300 1 5 13 0 65535 str - ; S P D 300 A 1 300 1 5 13 0 65535 str hex 616263 ; X 0 C 1 ; C 0 ; C 1 ; C 1 R P D 300 A 2 300 1 5 13 0 65535 str hex 6465 ;")
+	emit("tcp 5 7 full S P T 300 A 1 300 1 5 13 0 65535 str - ; S P D 300 A 1 300 1 5 13 0 65535 str hex 616263 ; X - C 1 ; C 0 ; C 1 ; C 1 R P D 300 A 2 300 1 5 13 0 65535 str hex 6465 ;")
 	emit("udp 5 7 full S P T 300 A 1 300 1 5 13 0 65535 str - ; S P D 300 A 1 300 1 5 13 0 65535 str hex 616263 ; X 9 C 0 ; C 1 ;")
 	env.Count("shape/reuse-fixed")
 	m := n / 2
